@@ -96,7 +96,7 @@ func C04(c *Ctx) {
 		"(A3) pairing with one coin origin: in the mint route Mint(c) ≺ SendModuleToAccount(enterprise→r, c) ≺ Delegate(r→enterprise, c) ≺ locked[r]+=c & total+=c on every success path (the only other success path is the zero-amount early return); in the unlock route every Undelegate(X) is followed on all success paths by locked-=a and spent+=a with a = X or its fee-denom projection; the increment/decrement helpers write both the per-account and the total counter; " +
 		"(A8) no bank error is dropped on those routes; (A5) BlockedAddresses() is built from all maccPerms keys, deletes only non-escrow accounts and is what the bank keeper receives; (A2) genesis import returns normally only when the escrow balance equals TotalLocked. " +
 		"Structural necessary conditions on every path; the numeric Σ-invariants themselves are not decided."
-	r.Rules = []string{"A1.book-writers", "A1.escrow-moves", "A3.mint-route-pairing", "A3.unlock-pairing", "A3.counter-pairs", "A8.bank-errors", "A5.blocked-addresses", "A2.genesis-balance", "A3.lost-update"}
+	r.Rules = []string{"A1.book-writers", "A1.escrow-moves", "A3.mint-route-pairing", "A3.unlock-pairing", "A3.counter-pairs", "A8.bank-errors", "A5.blocked-addresses", "A2.genesis-balance", "A3.lost-update", "A3.no-stale-writeback"}
 	lostUpdateControl(c)
 	r.Floor("functions of enterprise scanned for dropped updates to record copies", lostUpdates(c, "enterprise"), 40)
 	r.Trusted = []string{"bank DelegateCoinsFromAccountToModule / UndelegateCoinsFromModuleToAccount move exactly the given coins or fail", "bank refuses transfers to blocked addresses"}
@@ -180,11 +180,57 @@ func mintRoutePairing(c *Ctx) {
 	w, r := c.W, c.R
 	mints := w.AllEffects(func(e ir.Effect) bool { return e.Kind == "Mint" })
 	n := 0
+	type scoped struct {
+		me ir.Effect
+		f  *ssa.Function
+	}
+	var work []scoped
 	for _, me := range mints {
-		f := me.Fn
-		if !c.Rooted(f) {
+		if !c.Rooted(me.Fn) {
 			continue
 		}
+		// the route is judged in the function that holds all of it: the function of the mint call itself, or — when the
+		// route was split into phases (mint and deliver / delegate and book) — the nearest caller(s) from which every step
+		// is reached
+		hasAll := func(g *ssa.Function) bool {
+			root := w.FlatRoot(g)
+			for _, is := range []func(ssa.Instruction) bool{
+				directSites(c, func(e ir.Effect) bool { return e.Method == "SendCoinsFromModuleToAccount" }),
+				directSites(c, func(e ir.Effect) bool { return e.Method == "DelegateCoinsFromAccountToModule" }),
+				directSites(c, func(e ir.Effect) bool { return e.Kind == "StoreWrite" && e.Section == secLocked }),
+			} {
+				if len(w.FlatOccurrences(root, is)) == 0 {
+					return false
+				}
+			}
+			return true
+		}
+		level := []*ssa.Function{me.Fn}
+		seen := map[*ssa.Function]bool{me.Fn: true}
+		found := false
+		for depth := 0; depth < 4 && len(level) > 0 && !found; depth++ {
+			var next []*ssa.Function
+			for _, g := range level {
+				if hasAll(g) {
+					work = append(work, scoped{me, g})
+					found = true
+					continue
+				}
+				for _, ed := range w.Callers(g) {
+					if c.Rooted(ed.From) && !seen[ed.From] && ir.ModuleOf(ed.From) == "enterprise" {
+						seen[ed.From] = true
+						next = append(next, ed.From)
+					}
+				}
+			}
+			level = next
+		}
+		if !found {
+			work = append(work, scoped{me, me.Fn})
+		}
+	}
+	for _, sc := range work {
+		me, f := sc.me, sc.f
 		n++
 		key := fn(f)
 		isMint := func(in ssa.Instruction) bool { return in == me.Site }
@@ -211,6 +257,11 @@ func mintRoutePairing(c *Ctx) {
 		}
 		// one coin origin and one recipient throughout
 		coins := w.ExprOf(me.Call.Common().Args[2]).String()
+		if f != me.Fn {
+			for _, in := range instantiate(c, f, func(e ir.Effect) bool { return e.Kind == "Mint" && e.Site == me.Site }, func(e ir.Effect) *ir.Expr { return w.ExprOf(e.Call.Common().Args[2]) }) {
+				coins = in.E.String()
+			}
+		}
 		var recips []string
 		for _, in := range instantiate(c, f, func(e ir.Effect) bool {
 			return e.Method == "SendCoinsFromModuleToAccount" || e.Method == "DelegateCoinsFromAccountToModule"
@@ -231,21 +282,47 @@ func mintRoutePairing(c *Ctx) {
 		for _, in := range instantiate(c, f, func(e ir.Effect) bool {
 			return e.Kind == "StoreWrite" && (e.Section == secLocked || e.Section == secTotLocked)
 		}, func(e ir.Effect) *ir.Expr { return marshalArg(c, e) }) {
-			v := w.Expand(in.E, 3)
-			amt := v
-			if in.Eff.Section == secLocked {
-				amt = fieldOfStruct(v, "Amount")
+			// (the loaded record may be handed in by the caller: judged in the terms of each caller then)
+			coinsE := w.ExprOf(me.Call.Common().Args[2])
+			if f != me.Fn {
+				for _, in2 := range instantiate(c, f, func(e ir.Effect) bool { return e.Kind == "Mint" && e.Site == me.Site }, func(e ir.Effect) *ir.Expr { return w.ExprOf(e.Call.Common().Args[2]) }) {
+					coinsE = in2.E
+				}
 			}
-			ok := amt != nil && amt.Op == "call" && strings.HasSuffix(amt.Name, "types.Coin).Add") && len(amt.Args) == 2 &&
-				strings.Contains(coins, amt.Args[1].String())
-			if ok {
-				// base is the stored value of the same section
-				base := amt.Args[0]
-				ok = base.Any(func(x *ir.Expr) bool { return x.Op == "state" && x.Name == in.Eff.Section })
+			tup := &ir.Expr{Op: "tuple", Args: []*ir.Expr{in.E, coinsE}}
+			forms := []*ir.Expr{tup}
+			if tup.Any(func(x *ir.Expr) bool { return x.Op == "param" && x.Name != "k" && x.Name != "ctx" }) {
+				if ups := w.OriginsUp(f, tup, 3); len(ups) > 0 {
+					forms = nil
+					for _, up := range ups {
+						forms = append(forms, up.E)
+					}
+				}
 			}
+			ok := true
 			d := "<unresolved>"
-			if amt != nil {
-				d = amt.String()
+			for _, form := range forms {
+				if form.Op != "tuple" || len(form.Args) != 2 {
+					ok = false
+					continue
+				}
+				v := w.Expand(form.Args[0], 3)
+				coinsU := form.Args[1].String()
+				amt := v
+				if in.Eff.Section == secLocked {
+					amt = fieldOfStruct(v, "Amount")
+				}
+				ok1 := amt != nil && amt.Op == "call" && strings.HasSuffix(amt.Name, "types.Coin).Add") && len(amt.Args) == 2 &&
+					(strings.Contains(coinsU, amt.Args[1].String()) || strings.Contains(w.Expand(form.Args[1], 3).String(), amt.Args[1].String()))
+				if ok1 {
+					// base is the stored value of the same section
+					base := amt.Args[0]
+					ok1 = base.Any(func(x *ir.Expr) bool { return x.Op == "state" && x.Name == in.Eff.Section })
+				}
+				if amt != nil {
+					d = amt.String()
+				}
+				ok = ok && ok1
 			}
 			r.Require(ok, "A3.mint-route-pairing", key+"|increment|"+in.Eff.Section, pos(c, in.Eff.Site), "the locked counter becomes (stored value).Add(minted amount)", "stored "+d)
 		}
@@ -322,6 +399,7 @@ func unlockPairing(c *Ctx) {
 	// helper pairs: whoever writes the per-account counter also writes the total on every success path
 	pairs := [][2]string{{secLocked, secTotLocked}, {secSpent, secTotSpent}}
 	np := 0
+	covered := map[string]bool{}
 	for _, f := range w.Funcs {
 		if w.IsGenerated(f) || ir.IsFixture(f) || !c.Rooted(f) || ir.ModuleOf(f) != "enterprise" || genesisFuncs(c, "INITGEN", "enterprise")[f] {
 			continue
@@ -345,6 +423,7 @@ func unlockPairing(c *Ctx) {
 				continue
 			}
 			np++
+			covered[p[0]] = true
 			for _, x := range as {
 				bad := 0
 				for _, ret := range w.SuccessReturns(f) {
@@ -356,7 +435,16 @@ func unlockPairing(c *Ctx) {
 			}
 		}
 	}
-	r.Floor("functions updating a per-account counter and its total", np, 3)
+	// (one updater per counter pair is the least there must be: the increment and decrement of the locked pair may share one)
+	_ = np
+	r.Floor("per-account counter / total pairs with a judged updater", len(covered), 2)
+	// no counter record is written twice from one read (lost update across the iterations of a block step)
+	ns := 0
+	roots := append(append([]*ssa.Function{}, w.Roots["BEGIN:enterprise"]...), w.Roots["ANTE:enterprise"]...)
+	for _, sec := range []string{secLocked, secTotLocked, secSpent, secTotSpent} {
+		ns += staleRewrite(c, "A3.no-stale-writeback", roots, sec)
+	}
+	r.Floor("counter write occurrences judged for re-reads", ns, 4)
 }
 
 // amountMatches: a == X, or a == NewCoin(d, X.AmountOf(d)) with d the enterprise denom, or X == NewCoins(a).
